@@ -94,12 +94,8 @@ def guard_present(ctx, f, v, kind):
                           mentions(fa[2], lambda s: is_call(s, name="is_compact")) else None)]
     else:
         return False
-    edges = set()
-    for m in ms:
-        for (e, fa) in v.facts:
-            if m(fa) == "pass" and all(fail_is_error(f, e2) for (e2, f2) in v.facts if e2[0] == e[0] and m(f2) == "fail"):
-                edges.add(e)
-    return bool(edges) and not sep(f, edges, ok_sinks(f))
+    # compositional SEP: also through helpers, `and_then` closures and values returned as they are
+    return sep_holds(ctx.prog, f, [("guard:" + kind, m) for m in ms], ok_sinks(f))
 
 
 def check_decoders(ctx):
